@@ -6,6 +6,37 @@
   position).  Nothing is read through it by the engine: the only consumer in the functions under contract is
   ``read_neighbors``, which is replaced by its callee contract (contracts/C15.py: ``read_neighbors_contract``).
   If the token/file model of pyvc.text provides ``open_file`` it is used instead.
+
+Wide frames (vector_fft_corr).  The base pandas model (pyvc/pandas_model.py) is a record of named columns with the default
+RangeIndex.  ``vector_fft_corr`` builds frames whose number of columns is the (symbolic) number of wave vectors / frames, with
+integer and float column labels and an explicit index.  They are modelled here as heap cells of kind "wdf":
+
+    {"n": rows, "index": None (RangeIndex 0..n-1) | 1-D array of n row labels,
+     "pre": {"cols": {name: 1-D array}, "order": [names]}    leading named columns (each its own cell),
+     "block": 2-D array (n, m) | None, "labels": 1-D array of the m column labels of the block}
+
+Behaviour assumed (each item checked against pandas 3.0.6 under /venv/bin/python, see design_notes/C15.md):
+* ``pd.DataFrame(c, columns=<1-D array, m labels>, index=<1-D array, n labels>)`` with a real scalar c: an n x m block of c, the given
+  labels.  The block is modelled over the reals: pandas keeps a dtype per column (int64 for c = 0) and *replaces* a column that is
+  assigned an array of another dtype (no cast of the assigned values to the old dtype), so values are exact; the per-column
+  dtype itself is not tracked (it is observable through file formats only).
+* ``wf[k] = v`` (k an integer): label k must be one of the block labels (otherwise pandas appends a new column: outside the model,
+  side obligation ``wide-setitem:label-present``); label lookup is only modelled for *identity labels* ``labels[j] == j``
+  (side obligation ``wide-frame:identity-labels``), so label k is position k; v must be 1-D of length n (pandas raises ValueError
+  otherwise: side obligation); column k becomes v, exactly.
+* ``wf.index = v``: v must have n entries (pandas raises ValueError otherwise); the row labels become v.
+* ``wf.T``: block transposed, row labels <-> column labels.
+* ``pd.concat([f1, ..., fk], axis=1)``: pandas aligns the ROWS BY LABEL (outer join of the indexes).  Modelled only for identical
+  indexes, which is a side obligation, not an assumption: every frame must have n rows and row label i at position i (a frame with
+  the default RangeIndex has that by construction; for an explicit index ``index[i] == i`` is required at a symbolic i,
+  ``concat-axis1:index-equal``).  Then row i of the result is row i of every input side by side, the result carries the
+  RangeIndex, the columns are those of the inputs in order (only the last input may contribute a block).
+* ``wf.round(k)``: element-wise decimal rounding (uninterpreted round<k>) of every float column / the block.
+* ``wf.values``: (n, p + m) array, the p named columns followed by the block.  Treated as read-only like ``DataFrame.values`` of the base model
+  (pandas 3 returns a fresh writeable array for a frame with several blocks; a store through ``.values`` is therefore reported as a raising
+  path by the model and left to the replay - no function under contract does that).
+* ``wf.shape``, ``wf.columns`` (only for a frame without block), ``wf[k]`` (column k of the block as a Series).
+Anything else on a wide frame is outside the model (EngineError -> UNDECIDED).
 """
 from __future__ import annotations
 
@@ -59,7 +90,289 @@ def _open(interp, path, mode="r", *a, **k):
     return Ref(cur().alloc(Content("file", {"path": path, "mode": mode, "pos": 0})), "file")
 
 
+# ------------------------------------------------------------------------------------------------------------------
+# wide frames (module docstring)
+
+WIDE = "wdf"
+
+
+class WideRef(Ref):
+    """reference to a wide-frame cell; attribute / item protocol of pyvc.lib (pyvc_getattr, pyvc_setattr, pyvc_getitem, pyvc_setitem)"""
+
+    def pyvc_getattr(self, interp, name):
+        return wide_attr(interp, self, name)
+
+    def pyvc_setattr(self, interp, name, value):
+        return wide_setattr(interp, self, name, value)
+
+    def pyvc_getitem(self, interp, key):
+        return wide_getitem(interp, self, key)
+
+    def pyvc_setitem(self, interp, key, value):
+        return wide_setitem(interp, self, key, value)
+
+
+def new_wide(n, index, pre_cols, pre_order, block, labels):
+    """fresh wide-frame cell; every array is copied into a cell of its own"""
+    pre = {"cols": {k: A.copy(pre_cols[k]) for k in pre_order}, "order": list(pre_order)}
+    data = {"n": n, "index": None if index is None else A.copy(index), "pre": pre,
+            "block": None if block is None else A.copy(block), "labels": None if labels is None else A.copy(labels)}
+    return WideRef(cur().alloc(Content(WIDE, data)), WIDE)
+
+
+def wide_content(w):
+    return cur().heap[w.sid].data
+
+
+def _is_wide(v):
+    return isinstance(v, Ref) and v.kind == WIDE
+
+
+def _label_array(interp, v, what):
+    """1-D array of labels (np.arange(...), a numeric array, a range)"""
+    from ..lib import RangeVal, SeriesVal, _arr
+    v = sv.norm(v)
+    if isinstance(v, RangeVal):
+        if not (sv.is_conc(v.step) and v.step == 1):
+            raise EngineError(f"{what}: range with a step")
+        lo, n = v.start, v.length()
+        return A.new_arr((n,), lambda idx: A.simp(sv.add(lo, idx[0])), "int")
+    if isinstance(v, SeriesVal):
+        v = v.arr
+    a = _arr(v, interp)
+    if a.ndim != 1 or a.dtype not in ("int", "float"):
+        raise EngineError(f"{what}: a 1-D numeric label array is required")
+    return a
+
+
+def _dataframe_ctor(prev):
+    def ctor(interp, data=None, index=None, columns=None, dtype=None, **kw):
+        cols = sv.norm(columns)
+        wide = isinstance(cols, A.Arr) and cols.ndim == 1 and not A.dim_conc(cols.shape[0])
+        if not wide:
+            return prev(interp, data, index=index, columns=columns, dtype=dtype, **kw)
+        c = sv.norm(data)
+        if dtype is not None or kw or not sv.is_scalar(c) or c is None or isinstance(c, (sv.Cx, bool, str)) or (isinstance(c, sv.SV) and c.is_bool):
+            raise EngineError("wide DataFrame: only pd.DataFrame(<real scalar>, columns=<1-D array>, index=<1-D array>) is modelled")
+        if index is None:
+            raise EngineError("wide DataFrame(scalar) needs an index")
+        labels = _label_array(interp, cols, "DataFrame(columns=...)")
+        idx = _label_array(interp, index, "DataFrame(index=...)")
+        n, m = idx.shape[0], labels.shape[0]
+        for x in (n, m):
+            if not sv.is_conc(x):
+                cur().require(sv.cmp(">=", x, 0), "nonneg-dim")
+        cv = sv.to_real(c)
+        block = A.new_arr((n, m), lambda ix, cv=cv: cv, "float")
+        return new_wide(n, idx, {}, [], block, labels)
+    return ctor
+
+
+def _require_identity_labels(labels, what="wide-frame:identity-labels"):
+    m = labels.shape[0]
+    j = sv.fresh_int("lb")
+    cur().require(sv.implies(sv.and_(sv.cmp(">=", j, 0), sv.cmp("<", j, m)), sv.cmp("==", labels.get((j,)), j)), what)
+
+
+def _label_position(c, key):
+    """position of the block column with label `key` (identity labels only)"""
+    k = sv.norm(key)
+    if isinstance(k, A.Arr) and k.shape == ():
+        k = k.get(())
+    if not sv.is_scalar(k) or isinstance(k, (str, bool, sv.Cx)) or k is None or (isinstance(k, sv.SV) and not k.is_int) \
+            or (isinstance(k, sv.Fraction) and k.denominator != 1):
+        raise EngineError("wide frame: only integer column labels are modelled for item access")
+    if c["block"] is None:
+        raise EngineError("wide frame without a block")
+    _require_identity_labels(c["labels"])
+    return int(k) if sv.is_conc(k) else k
+
+
+def wide_setitem(interp, w, key, value):
+    from ..lib import SeriesVal, _arr
+    c = wide_content(w)
+    k = _label_position(c, key)
+    m = c["labels"].shape[0]
+    # a label that is not present would make pandas append a new column
+    cur().require(sv.and_(sv.cmp(">=", k, 0), sv.cmp("<", k, m)), "wide-setitem:label-present")
+    v = sv.norm(value)
+    if isinstance(v, SeriesVal):
+        raise EngineError("wide frame: a Series assigned to a column is aligned on its index (not modelled)")
+    if sv.is_scalar(v):
+        if isinstance(v, (sv.Cx, str)) or v is None:
+            raise EngineError("wide frame: column value")
+        col = sv.to_real(v)
+    else:
+        a = _arr(v, interp)
+        if a.ndim != 1 or a.dtype not in ("int", "float", "bool"):
+            raise EngineError("wide frame: a 1-D real array is required as column value")
+        A.require_dim_eq(a.shape[0], c["n"], "wide-setitem:length-of-values=number-of-rows")
+        col = A.astype(a, "float") if a.dtype != "float" else a
+    A.setitem(c["block"], (slice(None), k), col)
+    cur().events.append(("df-setcol", w.sid, k, cur().where, list(cur().pc)))
+
+
+def wide_getitem(interp, w, key):
+    from ..lib import SeriesVal
+    c = wide_content(w)
+    if isinstance(key, str):
+        if key in c["pre"]["cols"]:
+            return SeriesVal(c["pre"]["cols"][key], key)
+        raise PyRaiseKeyError(key)
+    k = _label_position(c, key)
+    m = c["labels"].shape[0]
+    cur().require(sv.and_(sv.cmp(">=", k, 0), sv.cmp("<", k, m)), "wide-getitem:label-present")
+    return SeriesVal(A.getitem(c["block"], (slice(None), k)), None)
+
+
+def PyRaiseKeyError(k):
+    from ..interp import PyRaise
+    return PyRaise("KeyError", repr(k))
+
+
+def wide_setattr(interp, w, name, value):
+    c = wide_content(w)
+    if name != "index":
+        raise EngineError(f"wide frame: assignment to attribute {name!r}")
+    idx = _label_array(interp, value, "DataFrame.index = ...")
+    # pandas: ValueError("Length mismatch") unless the new index has one label per row
+    A.require_dim_eq(idx.shape[0], c["n"], "wide-index-assignment:length=number-of-rows")
+    d = dict(c)
+    d["index"] = A.copy(idx)
+    cell = cur().heap[w.sid]
+    cur().heap[w.sid] = Content(WIDE, d, cell.meta)
+    cur().events.append(("setattr", w.sid, "index", cur().where, list(cur().pc)))
+
+
+def _index_labels(c):
+    """row labels as a 1-D array"""
+    if c["index"] is not None:
+        return c["index"]
+    return A.new_arr((c["n"],), lambda idx: idx[0], "int")
+
+
+def wide_transpose(w):
+    c = wide_content(w)
+    if c["pre"]["order"] or c["block"] is None:
+        raise EngineError("wide frame: .T of a frame with named columns")
+    return new_wide(c["labels"].shape[0], c["labels"], {}, [], A.transpose(c["block"]), _index_labels(c))
+
+
+def wide_round(w, k):
+    from ..pandas_model import _round_cols
+    c = wide_content(w)
+    pre = _round_cols(c["pre"]["cols"], c["pre"]["order"], k)
+    block = c["block"]
+    if block is not None and block.dtype in ("float", "complex"):
+        r = block.reader()
+        block = A.new_arr(block.shape, lambda idx, r=r: sv.round_dec(r(idx), k), block.dtype)
+    return new_wide(c["n"], c["index"], pre, c["pre"]["order"], block, c["labels"])
+
+
+def wide_values(w):
+    c = wide_content(w)
+    order = c["pre"]["order"]
+    p = len(order)
+    readers = [c["pre"]["cols"][k].reader() for k in order]
+    dts = [c["pre"]["cols"][k].dtype for k in order]
+    block = c["block"]
+    m = 0
+    br = None
+    if block is not None:
+        br, m = block.reader(), block.shape[1]
+        dts.append(block.dtype)
+    dt = A.promote(*dts) if dts else "float"
+
+    def fn(idx):
+        i, j = idx
+        if sv.is_conc(j):
+            j = int(j)
+            if j < p:
+                return A._cast(readers[j]((i,)), dt)
+            return A._cast(br((i, j - p)), dt)
+        out = (lambda: A._cast(br((i, A.simp(sv.sub(j, p)))), dt)) if br is not None else None
+        for q in range(p - 1, -1, -1):
+            val = (lambda q=q: A._cast(readers[q]((i,)), dt))
+            out = val if out is None else (lambda q=q, val=val, nxt=out: sv.ite(sv.cmp("==", j, q), val, nxt))
+        return out()
+    return A.new_arr((c["n"], A.simp(sv.add(p, m))), fn, dt, readonly=True)
+
+
+def wide_attr(interp, w, name):
+    c = wide_content(w)
+    if name == "T":
+        return wide_transpose(w)
+    if name == "values":
+        return wide_values(w)
+    if name == "shape":
+        m = c["block"].shape[1] if c["block"] is not None else 0
+        return (c["n"], A.simp(sv.add(len(c["pre"]["order"]), m)))
+    if name == "index":
+        return _index_labels(c)
+    if name == "columns":
+        if c["block"] is None:
+            from ..interp import new_list
+            return new_list(list(c["pre"]["order"]))
+        if not c["pre"]["order"]:
+            return c["labels"]
+        raise EngineError("wide frame: .columns of a frame with named columns and a block")
+    if name == "round":
+        return LibFunc("DataFrame.round", lambda i, k=0, *a, **kw: wide_round(w, int(sv.norm(k))))
+    if name == "copy":
+        return LibFunc("DataFrame.copy", lambda i, *a, **kw: new_wide(c["n"], c["index"], c["pre"]["cols"], c["pre"]["order"], c["block"], c["labels"]))
+    raise EngineError(f"wide frame: attribute {name!r} is outside the model")
+
+
+def _pd_concat(interp, objs=None, axis=0, **kw):
+    """pd.concat([...], axis=1) for frames with identical indexes (module docstring)"""
+    from ..pandas_model import df_content
+    if kw:
+        raise EngineError(f"pd.concat: keyword {sorted(kw)[0]!r} is not modelled")
+    ax = sv.norm(axis)
+    if not (sv.is_conc(ax) and int(ax) == 1):
+        raise EngineError("pd.concat: only axis=1 is modelled")
+    items = interp.iter_concrete(objs)
+    if not items:
+        from ..interp import PyRaise
+        raise PyRaise("ValueError", "No objects to concatenate")
+    n = None
+    cols, order, block, labels = {}, [], None, None
+    st = cur()
+    for pos, it in enumerate(items):
+        if block is not None:
+            raise EngineError("pd.concat(axis=1): a frame after a wide block is not modelled")
+        if isinstance(it, Ref) and it.kind == "df":
+            c = df_content(it)
+            ni, idx, pc, po, bl, lb = c["n"], None, c["cols"], c["order"], None, None
+        elif _is_wide(it):
+            c = wide_content(it)
+            ni, idx, pc, po, bl, lb = c["n"], c["index"], c["pre"]["cols"], c["pre"]["order"], c["block"], c["labels"]
+        else:
+            raise EngineError("pd.concat of something that is not a DataFrame")
+        if n is None:
+            n = ni
+        else:
+            # rows are aligned on their labels: all indexes must be the labels 0..n-1 in order
+            A.require_dim_eq(ni, n, "concat-axis1:equal-number-of-rows")
+        if idx is not None:
+            i = sv.fresh_int("ci")
+            st.require(sv.implies(sv.and_(sv.cmp(">=", i, 0), sv.cmp("<", i, ni)), sv.cmp("==", idx.get((i,)), i)), "concat-axis1:index-equal")
+        for k in po:
+            if k in cols:
+                raise EngineError(f"pd.concat(axis=1): duplicate column label {k!r}")
+            cols[k] = pc[k]
+            order.append(k)
+        block, labels = bl, lb
+    return new_wide(n, None, cols, order, block, labels)
+
+
 def register(lib):
     from .. import lib as L
     lib.np["cross"] = LibFunc("np.cross", _np_cross)
     L.BUILTINS["open"] = LibFunc("open", _open)
+    pdm = lib.mods["pandas"]
+    if not getattr(pdm["DataFrame"], "_c15_wide", False):
+        f = LibFunc("pd.DataFrame", _dataframe_ctor(pdm["DataFrame"].fn))
+        f._c15_wide = True
+        pdm["DataFrame"] = f
+    pdm["concat"] = LibFunc("pd.concat", _pd_concat)
